@@ -1688,8 +1688,9 @@ def reachable_tagged(fn, start, removed_edges=(), removed_blocks=(), max_states=
                         new = ("d", 1 - tg[pl["l"]][1])
                 elif rv["k"] == "discr":
                     pl = rv["place"]
-                    if is_plain_local(pl) and pl["l"] in tg and tg[pl["l"]][0] == "v" and tg[pl["l"]][2] is not None:
-                        new = ("d", tg[pl["l"]][2])
+                    root = pl["l"] if is_plain_local(pl) else _viewed_local(fn, pl)
+                    if root is not None and root in tg and tg[root][0] == "v" and tg[root][2] is not None:
+                        new = ("d", tg[root][2])
                 if new is None:
                     tg.pop(d["l"], None)
                 else:
@@ -1739,6 +1740,36 @@ def reachable_tagged(fn, start, removed_edges=(), removed_blocks=(), max_states=
     if want_edges:
         return out, edges_out
     return out
+
+
+def _viewed_local(fn, place):
+    """the local whose discriminant is read through a shared reference: `(*r)` with `r = &x`, or `(*(t.i))` with
+    `t = (.., &x, ..)` - the scrutinee of `match (&state, c)`"""
+    p = place.get("p") or []
+    l = place["l"]
+    if len(p) == 2 and isinstance(p[0], dict) and "f" in p[0] and p[1] == "deref":
+        sd = fn.single_def(l)
+        if sd is None or sd[2] != "assign":
+            return None
+        rv = fn.blocks[sd[0]]["stmts"][sd[1]]["rv"]
+        if rv.get("k") != "agg" or rv.get("ak") != "tuple":
+            return None
+        i = p[0].get("i", 0)
+        if i >= len(rv.get("ops", [])):
+            return None
+        o = op_place(rv["ops"][i])
+        if o is None or not is_plain_local(o):
+            return None
+        l = o["l"]
+        p = ["deref"]
+    if p == ["deref"]:
+        sd = fn.single_def(l)
+        if sd is None or sd[2] != "assign":
+            return None
+        rv = fn.blocks[sd[0]]["stmts"][sd[1]]["rv"]
+        if rv.get("k") == "ref" and rv.get("bk") in ("shared", "fake") and is_plain_local(rv["place"]):
+            return rv["place"]["l"]
+    return None
 
 
 _OPT_VI = {"std::option::Option": {0: "None", 1: "Some"}, "std::result::Result": {0: "Ok", 1: "Err"},
